@@ -516,7 +516,10 @@ class Main {
   function count(n: int): int = if n == 0 { 0 } else { let r = Main.count(n - 1); r + 1 }
   function last(n: int): int = if n == 0 { 7 } else { Main.last(n - 1) }
   function show(b: bool): unit = Process.println(if b { "T" } else { "F" })
+  function adder(label: Str, k: int): (int) -> int = { let _ = Process.println("make " :: label); (x) -> x + k }
   function main(): unit = {
+    let _ = Process.println(Str.fromInt(Main.adder("f", 10)(Main.num("arg a", 1))));
+    let _ = Process.println(Str.fromInt(Main.adder("g", 20)(Main.adder("h", 30)(Main.num("arg b", 2)))));
     let _ = Main.show({ let _ = Process.println("left operand evaluated"); false } && Main.say("not evaluated", true));
     let _ = Main.show({ let _ = Process.println("left true"); true } && Main.say("right evaluated", false));
     let _ = Main.show({ let _ = Process.println("left true again"); true } || Main.say("not evaluated either", false));
@@ -533,7 +536,7 @@ class Main {
     let _ = Process.println(Str.fromInt(t.e0 * 10 + t.e1));
   }
 }"#,
-      "left operand evaluated\nF\nleft true\nright evaluated\nF\nleft true again\nT\nleft false\nright evaluated too\nT\na\nc\nd\nT\nl1\nF\nl2\nT\nl3\nright of and runs\nF\nl4\nright of or runs\nT\nx\ny\nz\n7\n0 5 4 7\ndiscarded\nfirst\nsecond\n12",
+      "make f\narg a\n11\nmake g\nmake h\narg b\n52\nleft operand evaluated\nF\nleft true\nright evaluated\nF\nleft true again\nT\nleft false\nright evaluated too\nT\na\nc\nd\nT\nl1\nF\nl2\nT\nl3\nright of and runs\nF\nl4\nright of or runs\nT\nx\ny\nz\n7\n0 5 4 7\ndiscarded\nfirst\nsecond\n12",
       None,
     ),
 
@@ -585,6 +588,36 @@ class Main {
   }
 }"#,
       "F\n0\nF\n1\n3\n9\n15\n3\n3\n3\n3\n0 0\n66 33 48",
+      None,
+    ),
+
+    demo(
+      "values that live only in loop variables, nested loops, mutual recursion, vector equality",
+      r#"class Main {
+  function again(i: int, n: int, s: Str): unit = if i >= n { } else { let _ = Process.println(s); Main.again(i + 1, n, "again") }
+  function inner(j: int, m: int, a: int): int = if j >= m { a } else { Main.inner(j + 1, m, a + j) }
+  function outer(i: int, n: int, seed: int): unit = if i >= n { } else { let _ = Process.println(Str.fromInt(Main.inner(0, i, seed))); Main.outer(i + 1, n, seed) }
+  function chained(i: int, n: int, seed: int): unit = if i >= n { } else { let r = Main.inner(0, i, seed); let _ = Process.println(Str.fromInt(r)); Main.chained(i + 1, n, r) }
+  function pick(n: int, s: Str): Str = if n <= 0 { s } else { Main.pick2(n - 1, s) }
+  function pick2(n: int, s: Str): Str = if n <= 0 { s } else { Main.pick(n - 2, s) }
+  function doubles(i: int, x: int): unit = if i >= 6 { } else { let _ = Process.println(Str.fromInt(x * 2 + 1)); Main.doubles(i + 1, x * 2 + 1) }
+  function vec(n: int): Vec<int> = { let v = Vec.empty<int>(); let _ = Main.fill(v, 1, n); v }
+  function fill(v: Vec<int>, i: int, n: int): unit = if i > n { } else { let _ = v.push(i); Main.fill(v, i + 1, n) }
+  function say(label: Str, b: bool): unit = Process.println(label :: (if b { " eq" } else { " ne" }))
+  function main(): unit = {
+    let _ = Main.again(0, "3".toInt(), "first");
+    let _ = Main.outer(0, "6".toInt(), "100".toInt());
+    let _ = Main.chained(0, "6".toInt(), "100".toInt());
+    let _ = Process.println(Main.pick("100".toInt(), "hello") :: " " :: Main.pick2("7".toInt(), "world"));
+    let _ = Main.doubles(0, "0".toInt());
+    let _ = Main.say("short long", Main.vec(2).eq(Main.vec(3)));
+    let _ = Main.say("long short", Main.vec(3).eq(Main.vec(2)));
+    let _ = Main.say("same", Main.vec(3).eq(Main.vec(3)));
+    let _ = Main.say("empty", Main.vec(0).eq(Main.vec(0)));
+    let _ = Main.say("empty short", Main.vec(0).eq(Main.vec(1)));
+  }
+}"#,
+      "first\nagain\nagain\n100\n100\n101\n103\n106\n110\n100\n100\n101\n104\n110\n120\nhello world\n1\n3\n7\n15\n31\n63\nshort long ne\nlong short ne\nsame eq\nempty eq\nempty short ne",
       None,
     ),
   ]
@@ -717,8 +750,9 @@ fn verif_witness_search_exec_optimizer() {
     for (label, configuration) in configurations() {
       let c = back_end(&mut p, Some(&configuration));
       let r = run_wasm(&node, &w, &p, &c);
-      if r.failure.as_ref().is_some_and(|m| m.contains("CompileError")) {
-        // the WebAssembly lowering needs inlining to have run for some programs (a back-end matter): not executable
+      if r.failure.as_ref().is_some_and(|m| m.contains("CompileError")) && !configuration.does_perform_inlining {
+        // the WebAssembly lowering needs inlining to have run for some programs (a back-end matter): not executable.
+        // With inlining on — the configuration the compiler ships with — an invalid module is a failure like any other.
         skipped += 1;
         continue;
       }
